@@ -34,6 +34,7 @@ This can be useful in these scenario's:
 import json
 from .. import ir
 from ..utils.binary_txt import bin2asc, asc2bin
+from .writer import make_names_unique
 
 
 def to_json(module):
@@ -79,6 +80,9 @@ class DictWriter:
         pass
 
     def write_module(self, module):
+        # Values are referred to by name:
+        make_names_unique(module)
+
         json_externals = []
         for external in module.externals:
             json_external = self.write_external(external)
